@@ -1126,8 +1126,8 @@ fn shape_of(scn: &Scenario) -> String {
 
 fn budget_runs(t: Tier) -> u64 {
     match t {
-        Tier::Quick => 60_000,
-        Tier::Thorough => 2_000_000,
+        Tier::Quick => simcore::scaled(60_000),
+        Tier::Thorough => simcore::scaled(2_000_000),
     }
 }
 
